@@ -57,7 +57,7 @@ def normalise(rng, desc):
     if d["sources"] and rng.random() < 0.5:
         d["outside"] = ["#ifndef EXT_H", "#define EXT_H", "int ext1;", "#ifdef A", "int ext_a;", "#endif", "#endif"]
         s = rng.choice(d["sources"])
-        d["texts"][s] = [f'#include "{os.path.relpath("../outside/ext.h", os.path.dirname(s) or ".")}"'] + d["texts"][s]
+        d["texts"][s] = [f'#include "{os.path.relpath("../cb-old/ext.h", os.path.dirname(s) or ".")}"'] + d["texts"][s]
     for name, entries in d["platforms"].items():
         for e in entries:
             args = e["arguments"]
@@ -113,8 +113,8 @@ def decorate(rng, d):
         if rng.random() < 0.5:
             links.append((os.path.join(where, "innocent_dir"), "vendored/deep"))  # directory link into the excluded directory
     if a["outside"] is not None:
-        links.append(("ext_link.h", "../outside/ext.h"))       # link to a file outside the code base
-        links.append(("dl_out", "../outside"))                 # link to a directory outside the code base
+        links.append(("ext_link.h", "../cb-old/ext.h"))       # link to a file outside the code base
+        links.append(("dl_out", "../cb-old"))                 # link to a directory outside the code base
     # de-duplicate link names
     seen, ll = set(files), []
     for ln, tg in links:
@@ -136,7 +136,7 @@ def decorate(rng, d):
     for ln, tg in links:
         if os.path.basename(ln) != "plainlink":  # a command's file needs a source extension to be supported
             flinks.setdefault(final(tg), []).append(ln)
-    dlinks = [(ln, os.path.normpath(tg)) for ln, tg in links if os.path.normpath(tg) in real_dirs or tg == "../outside"]
+    dlinks = [(ln, os.path.normpath(tg)) for ln, tg in links if os.path.normpath(tg) in real_dirs or tg == "../cb-old"]
 
     def alias(p):
         """an alias spelling (root-relative) of the root-relative path p"""
@@ -178,8 +178,8 @@ def decorate(rng, d):
                 # found through -I: only a file link of the same name could alias it; keep
                 continue
             tgt = os.path.normpath(os.path.join(os.path.dirname(f), inc))
-            if tgt == os.path.normpath("../outside/ext.h"):
-                al = rng.choice(["ext_link.h", "dl_out/ext.h", "../outside/ext.h"])
+            if tgt == os.path.normpath("../cb-old/ext.h"):
+                al = rng.choice(["ext_link.h", "dl_out/ext.h", "../cb-old/ext.h"])
             elif tgt in a["texts"]:
                 al = alias(tgt)
             else:
@@ -210,12 +210,12 @@ def decorate(rng, d):
 
 
 def write_variant(base, d):
-    """base/cb = the code base root, base/outside = outside"""
+    """base/cb = the code base root, base/cb-old = the sibling directory outside the code base (its name shares the prefix `cb` with the root: containment is by path components, not by string prefix)"""
     root = os.path.join(base, "cb")
     os.makedirs(root)
     if d["outside"] is not None:
-        os.makedirs(os.path.join(base, "outside"))
-        with open(os.path.join(base, "outside", "ext.h"), "w") as f:
+        os.makedirs(os.path.join(base, "cb-old"))
+        with open(os.path.join(base, "cb-old", "ext.h"), "w") as f:
             f.write("\n".join(d["outside"]) + "\n")
     dd = copy.deepcopy(d)
     for entries in dd["platforms"].values():
